@@ -175,7 +175,9 @@ class TLCResult:
         return [v for v in self.values if isinstance(v, list) and v and v[0] == tag]
 
     def tail(self, n=40):
-        return "\n".join(self.out.splitlines()[-n:])
+        lines = [x for x in self.out.splitlines()
+                 if not x.startswith(("Parsing file", "Semantic processing", "Linting of module"))]
+        return "\n".join(lines[-n:])
 
 
 def run_tlc(module, cfg=None, workers=16, env=None, timeout=3600, extra=(),
@@ -191,9 +193,7 @@ def run_tlc(module, cfg=None, workers=16, env=None, timeout=3600, extra=(),
         e["JAVA_TOOL_OPTIONS"] = "-Djava.io.tmpdir=%s" % scratch
         if env:
             e.update({k: str(v) for k, v in env.items()})
-        cmd = ["java", "-XX:+UseParallelGC"]
-        if heap:
-            cmd.append("-Xmx%s" % heap)
+        cmd = ["java", "-XX:+UseParallelGC", "-Xmx%s" % (heap or "6g")]
         cmd += ["-cp", TLA_CP, "tlc2.TLC", "-workers", str(workers), "-metadir", meta,
                 "-noGenerateSpecTE", "-config", cfg or (module + ".cfg")]
         cmd += list(extra)
@@ -218,6 +218,8 @@ def model_check(module, cfg=None, workers=16, timeout=3600, env=None, extra=()):
     *specification* failed, which is a defect of the machinery, not of the
     code)."""
     res = run_tlc(module, cfg, workers=workers, timeout=timeout, env=env, extra=extra)
+    if not res.ok and not any("violated" in e or "Deadlock" in e for e in res.errors):
+        res = run_tlc(module, cfg, workers=workers, timeout=timeout, env=env, extra=extra)  # one retry
     if not res.ok:
         raise MachineryError("model checking %s failed:\n%s" % (module, res.tail(60)))
     if res.distinct == 0:
@@ -254,8 +256,13 @@ def validate_traces(module, traces, cfg=None, timeout=3600, env=None, chunk=1500
             e = {"TRACE_FILE": path}
             if env:
                 e.update(env)
-            sub = tempfile.mkdtemp(prefix="run-", dir=scratch)
-            res = run_tlc(module, cfg, workers=1, env=e, timeout=timeout, scratch=sub, heap="2g")
+            res = None
+            for attempt in range(2):   # one retry: a TLC start-up hiccup is not a verdict
+                sub = tempfile.mkdtemp(prefix="run-", dir=scratch)
+                res = run_tlc(module, cfg, workers=1, env=e, timeout=timeout, scratch=sub, heap="2g")
+                val = res.tagged("VALIDATED")
+                if res.ok and val and val[0][1] == len(part):
+                    break
             os.remove(path)
             return base, part, res
 
